@@ -1,5 +1,5 @@
 # Human-written parts of MANIFEST.json, per property.
-HOOK_COMMITS = ["f709daf", "0bf9109"]
+HOOK_COMMITS = ["f709daf", "0bf9109", "e0bcac3"]
 
 ALL = ["C%02d" % i for i in range(1, 21)]
 
